@@ -1,7 +1,7 @@
 (* Single entry point of all executable models:
    run_model id params rows  — ids are the property numbers / sub-models. *)
 Require Import Verif.common.Prelude.
-Require Import Verif.model.Vec Verif.model.Arc Verif.model.IntResult Verif.model.CStr Verif.model.Callback Verif.model.Slice Verif.model.Waker Verif.model.CView Verif.model.Glue Verif.model.Life Verif.model.Group Verif.model.LayoutCheck Verif.model.Bindgen.
+Require Import Verif.model.Vec Verif.model.Arc Verif.model.IntResult Verif.model.CStr Verif.model.Callback Verif.model.Slice Verif.model.Waker Verif.model.CView Verif.model.Glue Verif.model.Life Verif.model.Group Verif.model.LayoutCheck Verif.model.Bindgen Verif.model.BindgenHeader.
 
 Definition run_model (m : Z) (params : list Z) (rows : list (list Z)) : list (list Z) :=
   match m with
@@ -22,6 +22,7 @@ Definition run_model (m : Z) (params : list Z) (rows : list (list Z)) : list (li
   | 106%Z => run_life params rows
   | 108%Z => run_casts params rows
   | 117%Z => run_bindgen_cpp params rows
+  | 118%Z => run_header params rows
   | 217%Z => run_split_args params rows
   | _ => [[-3]%Z]
   end.
